@@ -805,6 +805,9 @@ def check(ctx: Ctx) -> None:
 
 R, D = "pipefunc/map/_run.py", "pipefunc/map/_storage_array/_dict.py"
 MUTANTS = [
+    Mutant("file-has-index-from-cached-listing", "pipefunc/map/_storage_array/_file.py", "    def has_index(self, index: int) -> bool:\n        \"\"\"Return whether the given linear index exists.\"\"\"\n        return self._index_to_file(index).is_file()\n",
+           "    @functools.cached_property\n    def _existing_files(self) -> set[str]:\n        return set(os.listdir(self.folder))\n\n    def has_index(self, index: int) -> bool:\n        \"\"\"Return whether the given linear index exists.\"\"\"\n        return self._index_to_file(index).name in self._existing_files\n", ("C03.8-no-shared-write",), why="round-8 seed C06/21"),
+    Mutant("pipefunc-holds-a-lock", "pipefunc/_pipefunc.py", "        self._output_picker: Callable[[Any, str], Any] | None = output_picker\n", "        self._output_picker: Callable[[Any, str], Any] | None = output_picker\n        self._call_lock = threading.RLock()\n", ("C03.7-picklable-state",), why="round-8 seed C18/22 (same construct on PipeFunc)"),
     Mutant("snapshot-function-by-reference-F36", "pipefunc/_pipefunc.py", '        state["function"] = cloudpickle.dumps(self.function)\n', "", ("C03.7-picklable-state",), why="original F36"),
     Mutant("snapshot-getstate-plain-copy", "pipefunc/_pipefunc.py", '        state["function"] = cloudpickle.dumps(self.function)\n', '        state["function"] = self.function\n', ("C03.7-picklable-state",)),
     Mutant("async-as-completed", R, "        outputs_list = await asyncio.gather(*futs)\n", "        outputs_list = [await fut for fut in asyncio.as_completed(futs)]\n", ("C03.2-barrier", "C03.1-mirror"), why="seeded C03/1"),
